@@ -304,3 +304,62 @@ Proof.
 Qed.
 
 End Agree.
+
+(* ---------- the sector formula as a recurrence (C07) ---------- *)
+Section Kappa.
+Context {C T : Type} (SC : Scalar C C) (S : Scalar C T).
+Variable t : table C.
+Variable d : T.
+
+Lemma upd_length (l : list T) e v : length (upd l e v) = length l.
+Proof. revert e; induction l as [|x l IH]; intros [|e]; cbn; auto. Qed.
+
+Lemma nth_upd_same (l : list T) e v z : e < length l -> nth e (upd l e v) z = v.
+Proof.
+  revert e; induction l as [|x l IH]; intros e H; [cbn in H; lia|].
+  destruct e as [|e]; [reflexivity|]. cbn [upd nth]. apply IH. cbn in H. lia.
+Qed.
+
+Lemma nth_upd_other (l : list T) e e' v z : e' <> e -> nth e' (upd l e v) z = nth e' l z.
+Proof.
+  revert e e'; induction l as [|x l IH]; intros e e' H; [destruct e; reflexivity|].
+  destruct e as [|e], e' as [|e']; cbn [upd nth]; try reflexivity; try congruence.
+  apply IH. congruence.
+Qed.
+
+(* kappa_1 = 1, kappa_{k+1} = kappa_k * powf xi_k (1/omega(g_k)):  xi_k is the coordinate read
+   after the k-th removal (position c + 2k - 1), g_k the graph left after k removals *)
+Fixpoint kappa_seq (pt : list T) (c : nat) (g : sid) (kappa : T) (order : list nat) : list T :=
+  match order with
+  | [] => []
+  | e :: rest => kappa :: kappa_seq pt (c + 2) (pop_edge g e) (next_kappa SC S t d pt c (pop_edge g e) kappa) rest
+  end.
+
+Lemma spec_run_x pt c st order z :
+  NoDup order -> (forall e, In e order -> e < length (st_x st)) ->
+  let fin := spec_run SC S t d pt c st order in
+  length (st_x fin) = length (st_x st) /\
+  (forall k, k < length order ->
+     nth (nth k order 0) (st_x fin) z = nth k (kappa_seq pt c (st_g st) (st_kappa st) order) z) /\
+  (forall e, ~ In e order -> nth e (st_x fin) z = nth e (st_x st) z).
+Proof.
+  revert c st; induction order as [|e rest IH]; intros c st Hnd Hlt; cbv zeta.
+  - cbn. split; [reflexivity|]. split; [intros k Hk; lia|reflexivity].
+  - inversion Hnd as [|? ? Hnotin Hnd']; subst.
+    assert (He : e < length (st_x st)) by (apply Hlt; left; reflexivity).
+    cbn [spec_run kappa_seq]. destruct rest as [|e2 rest'].
+    + cbn [st_x]. rewrite upd_length. split; [reflexivity|]. split.
+      * intros [|k] Hk; [|cbn in Hk; lia]. cbn. apply nth_upd_same, He.
+      * intros e' Hn. apply nth_upd_other. intros ->. apply Hn. left. reflexivity.
+    + set (st1 := mkSt _ _ _ _ _ _ _).
+      destruct (IH (c + 2) st1 Hnd') as [Hl [Hk Ho]].
+      { intros e' He'. unfold st1. cbn [st_x]. rewrite upd_length. apply Hlt. right. exact He'. }
+      cbv zeta in Hl, Hk, Ho. split; [rewrite Hl; unfold st1; cbn [st_x]; apply upd_length|]. split.
+      * intros [|k] Hklt.
+        -- cbn [nth]. rewrite (Ho e Hnotin). unfold st1. cbn [st_x]. apply nth_upd_same, He.
+        -- cbn [nth length] in *. rewrite (Hk k ltac:(lia)). unfold st1. cbn [st_g st_kappa]. reflexivity.
+      * intros e' Hn. rewrite (Ho e') by (intros Hc; apply Hn; right; exact Hc).
+        unfold st1. cbn [st_x]. apply nth_upd_other. intros ->. apply Hn. left. reflexivity.
+Qed.
+
+End Kappa.
